@@ -534,7 +534,16 @@ def pytest_sessionfinish(session, exitstatus):
                     for external_name in used:
                         state().storage.persist(external_name)
 
-                cr.fix_all()
+                # the new code of every file is validated before the first file is changed
+                # (the output of a format-command is not under our control)
+                new_codes = [
+                    (test_file, test_file.new_code()) for test_file in cr.files()
+                ]
+                for _, new_code in new_codes:
+                    ast.parse(new_code)
+
+                for test_file, new_code in new_codes:
+                    test_file.rewrite(new_code)
 
             unused_externals = _find_external.unused_externals()
 
